@@ -52,7 +52,8 @@ class Rule(whitespace.Rule):
             return
         elif self.number_of_spaces != 0:
             iSpaces = self.extract_expected_number_of_spaces()
-            self.create_violation(oToi, iSpaces)
+            if iSpaces:
+                self.create_violation(oToi, iSpaces)
 
     def extract_expected_number_of_spaces(self):
         if self.number_of_spaces_is_an_integer():
